@@ -8,8 +8,11 @@ package c17
 
 import (
 	"context"
+	"encoding/json"
 	"fmt"
 	"net/netip"
+	"os"
+	"path/filepath"
 	"strings"
 	"testing"
 	"testing/synctest"
@@ -32,7 +35,8 @@ type routerResolverPlan struct {
 
 type routerPlan struct {
 	Resolvers []routerResolverPlan
-	Pinned    int // 0: route uses all resolvers by order; k>0: RouteConfig.Resolver names resolver k-1
+	Domain    string // the request's target domain
+	Pinned    int    // 0: route uses all resolvers by order; k>0: RouteConfig.Resolver names resolver k-1
 }
 
 // relocate moves every address of the script out of 10.0.0.0/8 and fd00::/8.
@@ -78,6 +82,7 @@ func genFailingScript(rt *rapid.T, ag *addrGen) lookupScript {
 
 func genRouterPlan(rt *rapid.T) *routerPlan {
 	p := &routerPlan{}
+	p.Domain = genName(rt, 0)
 	n := rapid.SampledFrom([]int{2, 2, 2, 3}).Draw(rt, "resolvers")
 	for k := range n {
 		ag := &addrGen{scope: byte(k + 1)}
@@ -109,7 +114,11 @@ const (
 )
 
 func runRouterPlan(t *testing.T, p *routerPlan) (viol string, labels []string, key string) {
-	const domain = "n0.verif.test"
+	domain := p.Domain
+	if domain == "" {
+		domain = "n0.verif.test"
+	}
+	labels = append(labels, nameLabels(domain)...)
 	synctest.Test(t, func(t *testing.T) {
 		ups := make([]*tcpUpstream, len(p.Resolvers))
 		var resolvers []dns.SimpleResolver
@@ -228,7 +237,7 @@ func runRouterPlan(t *testing.T, p *routerPlan) (viol string, labels []string, k
 		if p.Pinned > 0 {
 			labels = append(labels, "route-pins-one-resolver")
 		}
-		key = fmt.Sprintf("pinned=%d %s=> %s", p.Pinned, walk.String(), got)
+		key = fmt.Sprintf("pinned=%d namelen=%d %s=> %s", p.Pinned, len(domain), walk.String(), got)
 		if !admissible[got] {
 			sig := "router-wrong-route-for-resolved-domain"
 			switch {
@@ -250,17 +259,21 @@ func runRouterPlan(t *testing.T, p *routerPlan) (viol string, labels []string, k
 }
 
 var recRouter = ev.New("C17", "router-resolver-fallthrough",
-	"rapid + synctest: router.Config with 2..3 real TCP-only dns.Resolvers (each with its own scripted upstream: failing in one of six ways / healthy / anything from the history generator; "+
+	"rapid + synctest: target domain as in the histories (everyday, or total length 1..253 with 63-byte / 1-byte / mixed labels); router.Config with 2..3 real TCP-only dns.Resolvers (each with its own scripted upstream: failing in one of six ways / healthy / anything from the history generator; "+
 		"addresses inside or outside the route's prefixes) and one route `network tcp, toPrefixes 10/8+fd00::/8` (resolver unspecified = all by order, or pinned to one); "+
 		"GetTCPClient for a domain target is compared with a reference walk over the resolvers in order using the TCP reference model: failed lookup -> next resolver; answer inside -> the route's client; "+
 		"outside -> default client; all failed -> error classified by router.DialResultCodeFromError as domain name lookup error. "+
 		"Non-trivial: at least one resolver failed before the outcome was decided; distinct key = walk + outcome").
-	Require("failed-resolver-then-answering-resolver", "all-resolvers-failed", "first-resolver-answered", "route-pins-one-resolver")
+	Require("name-length>=243", "failed-resolver-then-answering-resolver", "all-resolvers-failed", "first-resolver-answered", "route-pins-one-resolver")
 
 func TestRouterResolverFallthrough(t *testing.T) {
 	rapid.Check(t, func(rt *rapid.T) {
 		p := genRouterPlan(rt)
+		j := writeJournal("router", p)
 		viol, labels, key := runRouterPlan(t, p)
+		if j != "" {
+			os.Remove(j)
+		}
 		if viol != "" {
 			if sig := sigOf(viol); ev.IsKnown("C17", sig) {
 				recRouter.KnownHit(sig)
@@ -278,4 +291,23 @@ func TestRouterResolverFallthrough(t *testing.T) {
 			recRouter.Sample(map[string]any{"walk => outcome": key})
 		}
 	})
+}
+
+// TestReplayRouter re-runs a journaled router plan ($VERIF_REPLAY) outside rapid.
+func TestReplayRouter(t *testing.T) {
+	f := os.Getenv("VERIF_REPLAY")
+	if f == "" || !strings.Contains(filepath.Base(f), "journal-router") {
+		t.Skip("no router journal to replay")
+	}
+	b, err := os.ReadFile(f)
+	if err != nil {
+		t.Fatal(err)
+	}
+	var plan routerPlan
+	if err := json.Unmarshal(b, &plan); err != nil {
+		t.Fatal(err)
+	}
+	if viol, _, _ := runRouterPlan(t, &plan); viol != "" {
+		t.Fatal(viol)
+	}
 }
